@@ -100,13 +100,20 @@ Qed.
    by a flush) while the connection is still in the pool *)
 Inductive gst := GDead | GLive (kn : option (Z * Z)) (ended : bool).
 
+(* a SYN makes the start known *)
+Definition gnote (g : gst) (syn : bool) : gst :=
+  match g with
+  | GLive None false => if syn then GLive (Some (0, 0)) false else g
+  | _ => g
+  end.
+
 (* what one event may be and do.  allow: data beyond a gap may be released in this step (a flush,
    or a page limit is configured).  nc: ReassembledSG calls so far (index into the KeepFrom script). *)
-Definition gev (S : list Z) (c : cfg) (allow : bool) (nc : nat) (g : gst) (e : event) (g' : gst) : Prop :=
+Definition gev (S : list Z) (c : cfg) (allow syn : bool) (nc : nat) (g : gst) (e : event) (g' : gst) : Prop :=
   match e with
   | ETag _ => g' = g
   | EPanic _ => False
-  | ENew _ => g = GDead /\ g' = GLive None false
+  | ENew _ => g = GDead /\ g' = gnote (GLive None false) syn
   | EDone _ => (exists kn en, g = GLive kn en) /\ g' = GDead
   | ESG _ b _ en skip avail saved =>
     exists kn a e', g = GLive kn false /\ 0 <= a /\ a <= e' /\ e' <= zlen S /\
@@ -120,17 +127,17 @@ Definition gev (S : list Z) (c : cfg) (allow : bool) (nc : nat) (g : gst) (e : e
 Definition is_sg (e : event) : bool := match e with ESG _ _ _ _ _ _ _ => true | _ => false end.
 Definition nsg (evs : list event) : nat := length (filter is_sg evs).
 
-Fixpoint gevs (S : list Z) (c : cfg) (allow : bool) (nc : nat) (g : gst) (evs : list event) (g' : gst) : Prop :=
+Fixpoint gevs (S : list Z) (c : cfg) (allow syn : bool) (nc : nat) (g : gst) (evs : list event) (g' : gst) : Prop :=
   match evs with
   | [] => g' = g
-  | e :: t => exists gm, gev S c allow nc g e gm /\
-                         gevs S c allow (if is_sg e then Datatypes.S nc else nc) gm t g'
+  | e :: t => exists gm, gev S c allow syn nc g e gm /\
+                         gevs S c allow syn (if is_sg e then Datatypes.S nc else nc) gm t g'
   end.
 
-Lemma gevs_app : forall S c allow a nc g gm b g',
-  gevs S c allow nc g a gm -> gevs S c allow (nc + nsg a)%nat gm b g' -> gevs S c allow nc g (a ++ b) g'.
+Lemma gevs_app : forall S c allow syn a nc g gm b g',
+  gevs S c allow syn nc g a gm -> gevs S c allow syn (nc + nsg a)%nat gm b g' -> gevs S c allow syn nc g (a ++ b) g'.
 Proof.
-  intros S c allow. induction a as [|e t IH]; intros nc g gm b g' Ha Hb; cbn [app gevs] in *.
+  intros S c allow syn. induction a as [|e t IH]; intros nc g gm b g' Ha Hb; cbn [app gevs] in *.
   - subst gm. unfold nsg in Hb. cbn in Hb. rewrite Nat.add_0_r in Hb. exact Hb.
   - destruct Ha as (g1 & He & Ht). exists g1. split; [exact He|].
     eapply IH; [exact Ht|]. unfold nsg in *. cbn [filter] in Hb.
@@ -140,9 +147,9 @@ Proof.
     + exact Hb.
 Qed.
 
-Lemma gevs_tags : forall S c allow nc g l, gevs S c allow nc g (map ETag l) g.
+Lemma gevs_tags : forall S c allow syn nc g l, gevs S c allow syn nc g (map ETag l) g.
 Proof.
-  intros S c allow nc g. induction l as [|x t IH]; cbn [map gevs]; [reflexivity|].
+  intros S c allow syn nc g. induction l as [|x t IH]; cbn [map gevs]; [reflexivity|].
   exists g. split; [reflexivity|exact IH].
 Qed.
 
@@ -153,13 +160,13 @@ Lemma nsg_app : forall a b, nsg (a ++ b) = (nsg a + nsg b)%nat.
 Proof. intros. unfold nsg. rewrite filter_app, app_length. reflexivity. Qed.
 
 (* ---------------------------------------------------------------- send + close *)
-Lemma deliver : forall S i c s h used r0 a kn allow,
+Lemma deliver : forall S i c s h used r0 a kn allow syn,
   zlen S < HIS -> s_exists s = true -> s_cfg s = c -> h_closed h = false ->
   cok S i a r0 -> qok S i (a + clen r0) HIS (h_queue h) -> known_ok S i h kn a ->
   match kn with Some (_, p) => a = p \/ allow = true | None => True end ->
   exists s1 e' ev g',
     send_st fullv s h used r0 = (s1, sq i e', ev, false) /\
-    gevs S c allow (s_ncalls s) (GLive kn false) ev g' /\ nsg ev = 1%nat /\
+    gevs S c allow syn (s_ncalls s) (GLive kn false) ev g' /\ nsg ev = 1%nat /\
     a + clen r0 <= e' /\ e' <= zlen S /\
     s_cfg s1 = c /\ s_ncalls s1 = Datatypes.S (s_ncalls s) /\ s_rev_seen s1 = s_rev_seen s /\ s_sid s1 = s_sid s /\
     match g' with
@@ -171,7 +178,7 @@ Lemma deliver : forall S i c s h used r0 a kn allow,
                        qok S i (e' + 1) HIS (h_queue (s_half s1)) /\ (h_queue h = [] -> cend r0 = false))
     end.
 Proof.
-  intros S i c s h used r0 a kn allow HS Hex Hcfg Hop Hc Hq Hk Hal.
+  intros S i c s h used r0 a kn allow syn HS Hex Hcfg Hop Hc Hq Hk Hal.
   destruct (send_gen S i c h used r0 (s_sid s) (s_ncalls s) kn a HS Hc Hq Hk)
     as (e' & saved2 & q1 & tg & st0 & Hr).
   cbv zeta in Hr.
@@ -185,7 +192,7 @@ Proof.
   assert (Hkn : match kn with Some (A, p) => 0 <= A /\ A <= p /\ p <= a /\ (a = p \/ allow = true) | None => True end).
   { destruct kn as [(A, p)|]; [|exact I]. cbn [known_ok] in Hk. destruct Hk as (_ & HA & Hs & Hpa).
     pose proof (sok_range _ _ _ _ _ Hs). auto. }
-  assert (Hsg : forall en, gev S c allow (s_ncalls s) (GLive kn false)
+  assert (Hsg : forall en, gev S c allow syn (s_ncalls s) (GLive kn false)
                   (ESG (s_sid s) (sub S A' (e' - A')) st0 en (sg_skip kn a) (e' - A') (a - A'))
                   (GLive (Some (Anew, e')) en)).
   { intros en. cbn [gev]. exists kn, a, e'. split; [reflexivity|]. split; [lia|]. split; [pose proof (clen_nonneg r0); lia|].
@@ -358,15 +365,15 @@ Proof.
 Qed.
 
 (* ---------------------------------------------------------------- queue branch *)
-Lemma asm_queue_ok : forall S i c s evn l0 h kn o n g,
+Lemma asm_queue_ok : forall S i c syn s evn l0 h kn o n g,
   zlen S < HIS -> s_exists s = true -> s_cfg s = c -> half_ok S i kn h ->
   lo_of kn <= o -> 0 <= n -> o + n <= zlen S -> g_bytes g = sub S o n ->
   exists st' ev g',
     asm_queue_body fullv s evn (map ETag l0) h (sq i o) g = (st', evn ++ ev, false) /\
-    gevs S c (limits_on c) (s_ncalls s) (GLive kn false) ev g' /\ ginv c S i g' st' /\
+    gevs S c (limits_on c) syn (s_ncalls s) (GLive kn false) ev g' /\ ginv c S i g' st' /\
     s_ncalls st' = (s_ncalls s + nsg ev)%nat.
 Proof.
-  intros S i c s evn l0 h kn o n g HS Hex Hcfg Hh Ho Hn HoS Hb.
+  intros S i c syn s evn l0 h kn o n g HS Hex Hcfg Hh Ho Hn HoS Hb.
   pose proof Hh as (Hcl & Hq & Hkn).
   assert (Hlo : 0 <= lo_of kn).
   { destruct kn as [(A, p)|]; cbn [lo_of]; [|lia]. destruct Hkn as (_ & HA & _ & Hs). apply sok_range in Hs. lia. }
@@ -380,7 +387,7 @@ Proof.
       (mkSt c (s_exists s) (mkHalf pages1 (h_saved h) (c2_queue r) (h_next h) (h_seen h) (h_closed h))
             (s_rev_closed s) (s_rev_seen s) used1 (s_sid s) (s_ncalls s),
        evn ++ map ETag l0 ++ map ETag (c2_tags r), false) = (st', evn ++ ev, false) /\
-      gevs S c (limits_on c) (s_ncalls s) (GLive kn false) ev g' /\ ginv c S i g' st' /\
+      gevs S c (limits_on c) syn (s_ncalls s) (GLive kn false) ev g' /\ ginv c S i g' st' /\
       s_ncalls st' = (s_ncalls s + nsg ev)%nat).
   { intros used1 pages1. eexists. exists (map ETag (l0 ++ c2_tags r)), (GLive kn false).
     split; [rewrite map_app; reflexivity|]. split; [apply gevs_tags|]. split.
@@ -394,7 +401,7 @@ Proof.
   cbn [qok] in Hq'. destruct Hq' as (o1 & Ho1 & Ho1e & Hpg & Hq1').
   destruct (deliver S i c s
               (mkHalf (h_pages h - c2_rel r + c2_added r) (h_saved h) q' (h_next h) (h_seen h) (h_closed h))
-              (s_used s - c2_rel r + c2_added r) (CPage p1) o1 kn (limits_on c) HS Hex Hcfg)
+              (s_used s - c2_rel r + c2_added r) (CPage p1) o1 kn (limits_on c) syn HS Hex Hcfg)
     as (s1 & e' & ev & g' & Hsend & Hgev & Hnsg & He1 & He2 & Hc1 & Hnc & _ & _ & Hpost).
   { exact Hcl. }
   { apply pg_spg in Hpg. exact Hpg. }
@@ -417,16 +424,16 @@ Proof.
 Qed.
 
 (* ---------------------------------------------------------------- in-order branch *)
-Lemma asm_inorder_ok : forall S i c s evn l0 h A p o n g,
+Lemma asm_inorder_ok : forall S i c syn s evn l0 h A p o n g,
   zlen S < HIS -> s_exists s = true -> s_cfg s = c -> half_ok S i (Some (A, p)) h ->
   0 <= o -> o <= p -> 0 <= n -> o + n <= zlen S -> g_bytes g = sub S o n ->
   (g_fin g = true -> o + n = zlen S) ->
   exists st' ev g',
     asm_inorder_body fullv s evn (map ETag l0) h (sq i o) g = (st', evn ++ ev, false) /\
-    gevs S c (limits_on c) (s_ncalls s) (GLive (Some (A, p)) false) ev g' /\ ginv c S i g' st' /\
+    gevs S c (limits_on c) syn (s_ncalls s) (GLive (Some (A, p)) false) ev g' /\ ginv c S i g' st' /\
     s_ncalls st' = (s_ncalls s + nsg ev)%nat.
 Proof.
-  intros S i c s evn l0 h A p o n g HS Hex Hcfg Hh Ho Hop Hn HoS Hb Hfin.
+  intros S i c syn s evn l0 h A p o n g HS Hex Hcfg Hh Ho Hop Hn HoS Hb Hfin.
   pose proof Hh as (Hcl & Hq & Hnx & HA & HpS & Hsv). cbn [lo_of] in Hq.
   pose proof (sok_range _ _ _ _ _ Hsv) as HAp.
   unfold asm_inorder_body. rewrite Hb, Hnx.
@@ -452,7 +459,7 @@ Proof.
                 (mkHalf (h_pages h - c2_rel r) (h_saved h) (c2_queue r) (sq i p) (h_seen h) (h_closed h))
                 (s_used s - c2_rel r)
                 (CLive (mkLive (sub S p n') (sq i p) (g_syn g) (g_rst g || g_fin g) (g_ts g)))
-                p (Some (A, p)) (limits_on c) HS Hex Hcfg)
+                p (Some (A, p)) (limits_on c) syn HS Hex Hcfg)
       as (s1 & e' & ev & g' & Hsend & Hgev & Hnsg & He1 & He2 & Hc1 & Hnc & _ & _ & Hpost).
     { exact Hcl. }
     { unfold cok, clen. cbn [cbytes cseq lbytes lseq]. rewrite zlen_sub by lia. repeat split; try lia. }
@@ -491,21 +498,14 @@ Definition seg_ok (S : list Z) (i : Z) (g : segment) (o n : Z) : Prop :=
   (g_fin g = true -> o + n = zlen S) /\
   (if g_syn g then sadd (g_seq g) 1 else g_seq g) = sq i o /\ (g_syn g = true -> o = 0).
 
-(* a SYN makes the start known *)
-Definition gnote (g : gst) (syn : bool) : gst :=
-  match g with
-  | GLive None false => if syn then GLive (Some (0, 0)) false else g
-  | _ => g
-  end.
-
-Lemma asm_body_ok : forall S i c s evn g kn en o n,
+Lemma asm_body_ok : forall S i c syn s evn g kn en o n,
   zlen S < HIS -> ginv c S i (GLive kn en) s -> seg_ok S i g o n ->
   exists st' ev g',
     asm_body fullv s evn g = (st', evn ++ ev, false) /\
-    gevs S c (limits_on c) (s_ncalls s) (gnote (GLive kn en) (g_syn g)) ev g' /\ ginv c S i g' st' /\
+    gevs S c (limits_on c) syn (s_ncalls s) (gnote (GLive kn en) (g_syn g)) ev g' /\ ginv c S i g' st' /\
     s_ncalls st' = (s_ncalls s + nsg ev)%nat.
 Proof.
-  intros S i c s evn g kn en o n HS (Hcfg & Hex & Hcl & Hopen) (Hfo & Hb & Ho & Hn & HoS & Hfin & Hseq & Hsyn0).
+  intros S i c syn s evn g kn en o n HS (Hcfg & Hex & Hcl & Hopen) (Hfo & Hb & Ho & Hn & HoS & Hfin & Hseq & Hsyn0).
   unfold asm_body. cbn [h_closed h_next h_queue]. rewrite Hcl.
   destruct en.
   - (* closed half: the segment is ignored *)
@@ -526,10 +526,10 @@ Proof.
       { unfold half_ok. subst h. cbn [set_next h_closed h_queue h_next h_saved lo_of]. auto 10. }
       destruct (o - p >? 0) eqn:Eq.
       * replace (gnote (GLive (Some (A, p)) false) (g_syn g)) with (GLive (Some (A, p)) false) by reflexivity.
-        apply (asm_queue_ok S i c s evn [] (set_next h (sq i p)) (Some (A, p)) o n g); try assumption.
+        apply (asm_queue_ok S i c syn s evn [] (set_next h (sq i p)) (Some (A, p)) o n g); try assumption.
         cbn [lo_of]. lia.
       * replace (gnote (GLive (Some (A, p)) false) (g_syn g)) with (GLive (Some (A, p)) false) by reflexivity.
-        apply (asm_inorder_ok S i c s evn [] (set_next h (sq i p)) A p o n g); try assumption. lia.
+        apply (asm_inorder_ok S i c syn s evn [] (set_next h (sq i p)) A p o n g); try assumption. lia.
     + destruct Hkn as (Hnx & Hsv). rewrite Hnx. replace (INVALID =? INVALID) with true by reflexivity.
       cbn [andb orb]. rewrite Hfo.
       destruct (g_syn g) eqn:Esyn.
@@ -542,7 +542,7 @@ Proof.
         assert (Htg : exists l0, (match h_queue (s_half s) with [] => [] | _ :: _ => [ETag 18] end) = map ETag l0).
         { destruct (h_queue (s_half s)); [exists []|exists [18]]; reflexivity. }
         destruct Htg as (l0 & Htg). rewrite Htg.
-        destruct (asm_inorder_ok S i c s evn l0 (set_next h (sq i 0)) 0 0 0 n g) as (st' & ev & g' & H1 & H2 & H3 & H4);
+        destruct (asm_inorder_ok S i c syn s evn l0 (set_next h (sq i 0)) 0 0 0 n g) as (st' & ev & g' & H1 & H2 & H3 & H4);
           try assumption; try lia.
         exists st', ev, g'. auto.
       * cbn [orb gnote].
@@ -550,5 +550,32 @@ Proof.
         assert (Hh : half_ok S i None (set_next h INVALID)).
         { unfold half_ok. subst h. cbn [set_next h_closed h_queue h_next h_saved lo_of] in *. auto. }
         rewrite Hseq.
-        apply (asm_queue_ok S i c s evn [] (set_next h INVALID) None o n g); try assumption; cbn [lo_of]; lia.
+        apply (asm_queue_ok S i c syn s evn [] (set_next h INVALID) None o n g); try assumption; cbn [lo_of]; lia.
+Qed.
+
+Lemma assemble_ok : forall S i c st seg g o n,
+  zlen S < HIS -> ginv c S i g st -> seg_ok S i seg o n ->
+  exists st' ev g',
+    assemble fullv st seg = (st', ev, false) /\
+    gevs S c (limits_on c) (g_syn seg) (s_ncalls st) (gnote g (g_syn seg)) ev g' /\ ginv c S i g' st' /\
+    s_ncalls st' = (s_ncalls st + nsg ev)%nat.
+Proof.
+  intros S i c st seg g o n HS Hinv Hseg. rewrite assemble_unfold.
+  destruct g as [|kn en].
+  - destruct Hinv as (Hcfg & Hex). rewrite Hex.
+    set (s' := mkSt (s_cfg st) true (new_half (g_ts seg)) false (g_ts seg) (s_used st)
+                    (Datatypes.S (s_sid st)) (s_ncalls st)).
+    assert (Hi' : ginv c S i (GLive None false) s').
+    { unfold ginv, s'. cbn [s_cfg s_exists s_half new_half h_closed]. split; [exact Hcfg|]. split; [reflexivity|].
+      split; [reflexivity|]. intros _. unfold half_ok, new_half. cbn [h_closed h_queue h_next h_saved lo_of qok].
+      split; [reflexivity|]. split; [unfold HIS, HALFW; lia|]. split; reflexivity. }
+    destruct (asm_body_ok S i c (g_syn seg) s' [ENew (Datatypes.S (s_sid st))] seg None false o n HS Hi' Hseg)
+      as (st' & ev & g' & H1 & H2 & H3 & H4).
+    exists st', (ENew (Datatypes.S (s_sid st)) :: ev), g'. split; [exact H1|]. split.
+    + cbn [gnote gevs is_sg]. eexists. split; [cbn [gev]; split; reflexivity|]. exact H2.
+    + split; [exact H3|]. cbn [s_ncalls] in H4. subst s'. cbn [s_ncalls] in H4. rewrite H4.
+      unfold nsg. cbn [filter is_sg]. reflexivity.
+  - pose proof Hinv as (Hcfg & Hex & _). rewrite Hex.
+    destruct (asm_body_ok S i c (g_syn seg) st [] seg kn en o n HS Hinv Hseg) as (st' & ev & g' & H1 & H2 & H3 & H4).
+    exists st', ev, g'. cbn [app] in H1. auto.
 Qed.
